@@ -68,8 +68,8 @@ func (cx *Ctx) actKind(c ssa.CallInstruction, stack map[*ssa.Function]bool) stri
 	if k := cx.Fx.replyAct(c); k != "" {
 		return k
 	}
-	f := calleeOf(c)
-	if f == nil || f.Blocks == nil || f.Pkg == nil || !isModulePath(f.Pkg.Pkg.Path()) || isMockPath(f.Pkg.Pkg.Path()) {
+	f := cx.moduleCallee(c)
+	if f == nil {
 		return ""
 	}
 	if stack[f] {
@@ -211,4 +211,21 @@ func httpErrorStatus(c ssa.CallInstruction) (int64, bool) {
 		return 0, false
 	}
 	return constInt(c.Common().Args[2])
+}
+
+// moduleCallee: the module function a call invokes: its static callee, or the single closure a function value
+// kept in a local variable / parameter / struct field resolves to.
+func (cx *Ctx) moduleCallee(c ssa.CallInstruction) *ssa.Function {
+	f := calleeOf(c)
+	if f == nil && !c.Common().IsInvoke() {
+		if _, isB := c.Common().Value.(*ssa.Builtin); !isB {
+			if tg, ok := cx.Fx.funcTargets(c.Common().Value); ok && len(tg) == 1 {
+				f = tg[0]
+			}
+		}
+	}
+	if f == nil || f.Blocks == nil || f.Pkg == nil || !isModulePath(f.Pkg.Pkg.Path()) || isMockPath(f.Pkg.Pkg.Path()) {
+		return nil
+	}
+	return f
 }
